@@ -21,9 +21,10 @@ SameModuloNaN(a, b) ==
 OK(e) ==
   LET m == e.m
       all == AllInsts(m)
-      nh == IF m.header = <<>> THEN 0 ELSE 4
+      nh == e.nh                                   \* number of leading comment lines (first token ";")
   IN
-  /\ (nh = 4 => HeaderLinesOK(m.header[1], e.lines))
+  /\ (m.header = <<>> => nh = 0)
+  /\ (m.header # <<>> => HeaderTokensOK(m.header[1], e.tokens, nh))
   \* "followed by exactly one line per instruction in assembly order"
   /\ Len(e.lines) = nh + Len(all) \/ (Len(all) = 0 /\ nh = 0 /\ e.lines = <<"">>)
   \* (extended-instruction names apply to block instructions of functions; ids imported as a known set)
